@@ -10,7 +10,13 @@ from .report import AnalysisError
 
 def is_pure(e: ast.AST) -> bool:
     for n in ast.walk(e):
-        if isinstance(n, (ast.Call, ast.Await, ast.Yield, ast.NamedExpr, ast.Lambda)):
+        if isinstance(n, ast.Call):
+            # dict.get(<constants>) on a plain name has no effect: keep it substitutable
+            if isinstance(n.func, ast.Attribute) and n.func.attr == 'get' and isinstance(n.func.value, ast.Name) \
+                    and all(isinstance(a, (ast.Constant, ast.JoinedStr)) for a in n.args) and not n.keywords:
+                continue
+            return False
+        if isinstance(n, (ast.Await, ast.Yield, ast.NamedExpr, ast.Lambda)):
             return False
     return True
 
@@ -38,6 +44,7 @@ class SymWalk:
         self.events: list[Event] = []
         self.max_unroll = max_unroll
         self._seq = 0
+        self._persist: list[list] = []     # per unrolled loop: guards that hold for all later iterations (after `break`)
         self._block(func.body, [])
 
     # -- substitution ----------------------------------------------------------
@@ -147,9 +154,13 @@ class SymWalk:
             t = self.subst(st.test)
             self._calls_in(st.test, guards, st)
             # `if c: continue` / `if c: return`  -> rest of the block runs under not c
-            if not st.orelse and len(st.body) == 1 and isinstance(st.body[0], (ast.Continue, ast.Return, ast.Raise)):
+            if not st.orelse and len(st.body) == 1 and isinstance(st.body[0], (ast.Continue, ast.Return, ast.Raise,
+                                                                                ast.Break)):
                 if isinstance(st.body[0], ast.Return):
                     self._emit('return', st.body[0], None, guards + [(t, True)])
+                if isinstance(st.body[0], ast.Break) and self._persist:
+                    # leaving the loop: every later iteration runs only if this test was false
+                    self._persist[-1].append((t, False))
                 return guards + [(t, False)]
             saved = dict(self.env)
             self._block(st.body, guards + [(t, True)])
@@ -173,9 +184,11 @@ class SymWalk:
                 return None
             if len(items) > self.max_unroll:
                 raise AnalysisError('loop too long to unroll')
+            self._persist.append([])
             for it in items:
                 self._bind(st.target, it)
-                self._block(st.body, guards)
+                self._block(st.body, guards + list(self._persist[-1]))
+            self._persist.pop()
             return None
         if isinstance(st, ast.While):
             self._emit('loop', st, self.subst(st.test), guards)
